@@ -21,7 +21,7 @@ def flagTargets (bi : Nat) (r : Rule) (quit : Bool) (live : List Nat) : List Ste
   if quit then [] else live.map fun i => .quit bi "quit" (if r.ticks then some i else none)
 
 /-- targets of the table rule with key k on open branch b -/
-def tableTargets (L : LogicData) (mw bi : Nat) (b : Branch) (h : BranchH) (live : List Nat) (k : RuleKey) : List Step :=
+def tableTargets (L : LogicData) (mw mc bi : Nat) (b : Branch) (h : BranchH) (live : List Nat) (k : RuleKey) : List Step :=
   match L.rule? k with
   | none => []
   | some r =>
@@ -43,7 +43,33 @@ def tableTargets (L : LogicData) (mw bi : Nat) (b : Branch) (h : BranchH) (live 
                     fun w2 => .rule bi i none (some w2)
               | none => []
           | _ => []
-    | _ => []
+    | .newConst =>
+        -- NarrowQuantifierRule._get_targets: the constant limit is per node (its world); then `_get_node_targets` with
+        -- `branch.new_constant()`
+        live.flatMap fun (i : Nat) =>
+          match b.nodes[i]? with
+          | some (Node.sent _ _ w) =>
+              if constExceeded mc b w then flagTargets bi r (h.quit k) [i]
+              else [.rule bi i (some (nextConst b)) none]
+          | _ => []
+    | .eachConst =>
+        -- ExtendedQuantifierRule._get_node_targets: one target per unapplied constant; on a branch without constants the
+        -- first constant, unless its instance is already there
+        live.flatMap fun (i : Nat) =>
+          match b.nodes[i]? with
+          | some (Node.sent s d w) =>
+              if constExceeded mc b w then flagTargets bi r (h.quit k) [i]
+              else
+                let un := h.nc k i
+                if !b.consts.isEmpty && un.isEmpty then []
+                else if !un.isEmpty then un.map fun c => .rule bi i (some c) none
+                else
+                  match L.ruleFor s d with
+                  | some (r', whole, l0) =>
+                      if groupsDone b (instGroups whole l0 w (some (0, 0)) none r') then []
+                      else [.rule bi i (some (0, 0)) none]
+                  | none => []
+          | _ => []
 
 /-- all worlds of node i have their loop in the world index -/
 def allLooped (wi : List (Nat × Nat)) (nd : Node) : Bool := nd.worlds.all fun w => wi.contains (w, w)
@@ -81,7 +107,7 @@ def targets (L : LogicData) (s : SState) (r : RuleId) (bi : Nat) : List Step :=
     if b.closed then [] else
     match r with
     | .closure => (h.closeT.map (closeStep bi)).toList
-    | .table k => tableTargets L s.maxWorlds bi b h (s.live r bi) k
+    | .table k => tableTargets L s.maxWorlds s.maxConsts bi b h (s.live r bi) k
     | .frame fr => frameTargets L s bi b h (s.live r bi) fr
   | _, _ => []
 
@@ -101,12 +127,15 @@ def enabled (L : LogicData) (s : SState) (r : RuleId) (bi : Nat) : List Step :=
 /-! ### the side effect of looking for targets -/
 
 /-- does `_get_targets` release this cached node (`FilterNodeCache.release`) -/
-def releasable (L : LogicData) (mw : Nat) (b : Branch) (h : BranchH) (r : RuleId) (i : Nat) : Bool :=
+def releasable (L : LogicData) (mw mc : Nat) (b : Branch) (h : BranchH) (r : RuleId) (i : Nat) : Bool :=
   match r with
   | .closure => false
   | .table k =>
       match L.rule? k with
-      | some rl => (rl.witness == .newWorld || rl.witness == .eachWorld) && exceeded mw b
+      | some rl =>
+          ((rl.witness == .newWorld || rl.witness == .eachWorld) && exceeded mw b) ||
+          ((rl.witness == .newConst || rl.witness == .eachConst) &&
+            (match b.nodes[i]? with | some (Node.sent _ _ w) => constExceeded mc b w | _ => false))
       | none => false
   | .frame .reflexive =>
       exceeded mw b || (match b.nodes[i]? with | some nd => allLooped h.windex nd | none => false)
@@ -129,7 +158,7 @@ def SState.search (L : LogicData) (s : SState) (r : RuleId) (bi : Nat) : SState 
   match s1.tab[bi]?, s1.hs[bi]? with
   | some b, some h =>
       if b.closed then s1 else
-      match ((h.cache r).filter (releasable L s.maxWorlds b h r)).map (fun i => (bi, i)) with
+      match ((h.cache r).filter (releasable L s.maxWorlds s.maxConsts b h r)).map (fun i => (bi, i)) with
       | [] => s1
       | rel => { s1 with garbages := amod [] (fun _ => rel) s1.garbages r }
   | _, _ => s1
@@ -144,11 +173,14 @@ def afterApply (L : LogicData) (r : RuleId) (st : Step) (h : BranchH) : BranchH 
       | some rl =>
           let isFlag := match st with | .quit .. => true | _ => false
           let h1 : BranchH :=
-            if rl.witness == .newWorld || rl.witness == .eachWorld then
+            if rl.witness != .none then
               { h with quits := amod false (fun _ => isFlag) h.quits k }
             else h
           match rl.witness, st with
           | .eachWorld, .rule _ n _ (some w') => { h1 with nws := amod [] (· ++ [(n, w')]) h1.nws k }
+          | .eachConst, .rule _ n (some c) _ =>
+              -- NodeConsts.after_apply: the constant is no longer unapplied for this node
+              { h1 with ncs := h1.ncs.map fun p => if p.1 == (k, n) then (p.1, p.2.filter (· != c)) else p }
           | _, _ => h1
       | none => h
   | _ => h
